@@ -221,6 +221,68 @@ fn toy_moduli(ctx: &Ctx, idx: u64) {
     }
 }
 
+/// encodings of keys and signatures with values of special shape (tiny, leading zero bytes, all-ones, N-1)
+fn special_codecs<C: Cs>(ctx: &Ctx) {
+    let nbits = C::ln;
+    let n = (Integer::from(1) << (nbits - 1)) + 12345u32;
+    let specials: Vec<Integer> = vec![
+        Integer::from(1), Integer::from(2), Integer::from(255), Integer::from(256), Integer::from(65535),
+        (Integer::from(1) << 64) - 1u32, Integer::from(1) << 64, Integer::from(1) << (nbits - 9), (Integer::from(1) << (nbits - 8)) - 1u32, Integer::from(&n - 1u32),
+    ];
+    for (i, b) in specials.iter().enumerate() {
+        for (j, c) in specials.iter().enumerate() {
+            if (i + j) % 3 != 0 {
+                continue;
+            }
+            let case = format!("{}/special-codec/pk/{}-{}", C::NAME, i, j);
+            ctx.distinct(&case);
+            let pk = CL03PublicKey::new(n.clone(), b.clone(), c.clone());
+            let bytes = pk.to_bytes::<CL03<C>>();
+            match ctx.call("PublicKey::from_bytes", &case, None, || Ok::<_, ()>(CL03PublicKey::from_bytes::<CL03<C>>(&bytes))).value {
+                Some(p2) if p2 == pk => {}
+                _ => ctx.violation("C18:roundtrip/public-key/bytes", json!({"case":case,"b_bits":b.significant_bits(),"c_bits":c.significant_bits()})),
+            }
+            if serde_json::from_str::<CL03PublicKey>(&serde_json::to_string(&pk).unwrap()).ok().as_ref() != Some(&pk) {
+                ctx.violation("C18:roundtrip/public-key/json", json!({"case":case}));
+            }
+        }
+    }
+    let half = C::SECPARAM + 1;
+    let ps: Vec<Integer> = vec![Integer::from(3), Integer::from(65537), (Integer::from(1) << (half - 9)) + 1u32, (Integer::from(1) << (half - 1)) + 5u32, (Integer::from(1) << half) - 1u32];
+    for (i, p) in ps.iter().enumerate() {
+        for (j, q) in ps.iter().enumerate() {
+            let case = format!("{}/special-codec/sk/{}-{}", C::NAME, i, j);
+            ctx.distinct(&case);
+            let sk = CL03SecretKey::new(p.clone(), q.clone());
+            let bytes = sk.to_bytes::<CL03<C>>();
+            match ctx.call("SecretKey::from_bytes", &case, None, || Ok::<_, ()>(CL03SecretKey::from_bytes::<CL03<C>>(&bytes))).value {
+                Some(s2) if s2 == sk => {}
+                _ => ctx.violation("C18:roundtrip/secret-key/bytes", json!({"case":case,"p_bits":p.significant_bits(),"q_bits":q.significant_bits()})),
+            }
+        }
+    }
+    // signatures with components of special shape (built through serde, as a remote party could)
+    let e_s: Vec<Integer> = vec![Integer::from(3), (Integer::from(1) << (C::le - 1)) + 1u32, (Integer::from(1) << (C::le - 9)) + 1u32, (Integer::from(1) << C::le) - 1u32];
+    let s_s: Vec<Integer> = vec![Integer::from(0), Integer::from(1), Integer::from(1) << (C::ls - 9), (Integer::from(1) << C::ls) - 1u32];
+    let v_s: Vec<Integer> = vec![Integer::from(0), Integer::from(1), Integer::from(255), Integer::from(1) << (nbits - 9), Integer::from(&n - 1u32)];
+    for (i, e) in e_s.iter().enumerate() {
+        for (j, s) in s_s.iter().enumerate() {
+            for (k, v) in v_s.iter().enumerate() {
+                let case = format!("{}/special-codec/sig/{}-{}-{}", C::NAME, i, j, k);
+                ctx.distinct(&case);
+                let js = json!({"CL03": {"e": serde_json::to_value(e).unwrap(), "s": serde_json::to_value(s).unwrap(), "v": serde_json::to_value(v).unwrap()}});
+                let Ok(sig) = serde_json::from_value::<Signature<CL03<C>>>(js) else { continue };
+                let bytes = ctx.call_plain("Signature::to_bytes", &case, || sig.to_bytes()).value.unwrap_or_default();
+                match ctx.call("Signature::from_bytes", &case, None, || Ok::<_, ()>(Signature::<CL03<C>>::from_bytes(&bytes))).value {
+                    Some(s2) if s2 == sig => {}
+                    _ => ctx.violation("C18:roundtrip/signature/bytes", json!({"case":case,"e_bits":e.significant_bits(),"s_bits":s.significant_bits(),"v_bits":v.significant_bits()})),
+                }
+            }
+        }
+    }
+    ctx.count("special_shape_objects_round_tripped", 1);
+}
+
 pub static RECORDS_PRIMES: Mutex<Vec<String>> = Mutex::new(Vec::new());
 
 fn gcd_u32(a: u32, b: u32) -> u32 {
@@ -244,6 +306,10 @@ pub fn scenarios(ctx: &Ctx) -> Vec<Scenario> {
     }
     v.push(scenario("randoms", |c| randoms(c, 0)));
     v.push(scenario("toy-moduli", |c| toy_moduli(c, 0)));
+    v.push(scenario("special-codecs/CL1024", |c| special_codecs::<CL1024Sha256>(c)));
+    if !ctx.quick() {
+        v.push(scenario("special-codecs/CL2048", |c| special_codecs::<CL2048Sha256>(c)));
+    }
     v
 }
 
